@@ -39,6 +39,10 @@ SPECS = {
     "loads-module-registers-data": dict(files={"net.ucl": UCL_LINES}, formats=["uclchem"], elements=["H", "C", "O", "CL", "E"], pseudo=["CRP", "PHOTON"],
                                         replacement={"CL": "Cl", "E": "e"}, binding={"#HCL": 4321.5}, yields={}, grain_model="rr07x",
                                         loads_module={"binding": {"#CO": 1575.25}, "yields": {"#CO": 0.0025}}, solver=("cvode", "cpu", "dense")),
+    # photon yields given without any binding energy (each table reaches the project file on its own)
+    "yields-without-binding": dict(files={"net.ucl": UCL_LINES + ["#CO,DEUVCR,NAN,CO,NAN,NAN,NAN,1.00e+00,0.00,0.0,10,41000"]}, formats=["uclchem"],
+                                   elements=["H", "C", "O", "CL", "E"], pseudo=["CRP", "PHOTON"], replacement={"CL": "Cl", "E": "e"}, binding={}, yields={"#CO": 0.0027},
+                                   grain_model="rr07x", solver=("cvode", "cpu", "dense")),
     "bulk-prefix": dict(files={"net.kida": KIDA_LINES}, formats=["kida"], elements=["H", "C"], pseudo=[], bulk_prefix="&", surface_prefix="#",
                         solver=("odeint", "cpu", "rosenbrock4")),
     "allowed-cooling": dict(files={"net.kida": KIDA_LINES}, formats=["kida"], elements=["H", "C", "He", "e"], pseudo=[], allowed=["H", "H2", "C", "CH", "C2"],
@@ -165,6 +169,10 @@ def child_history(workdir, spec):
         kw = {}
         if spec.get("elements") is not None:
             kw["elements"], kw["pseudo_elements"] = list(spec["elements"]), list(spec["pseudo"])
+        if spec.get("binding"):
+            # the project's own user table: registered before the network is built, as the render command does
+            from naunet.chemistrydata import update_binding_energy as _ube
+            _ube(dict(spec["binding"]))
         late = list(spec.get("late_required", []))
         same_loader = "edit-after-render-same-loader" in spec.get("prelude", [])
         edit = "edit-after-render" in spec.get("prelude", []) or same_loader
@@ -394,6 +402,16 @@ C17_SPECS["kida-own-tables"] = dict(files={"net.kida": KIDA_LINES + [
     "H2         CRP                    H          H                                             4.600e-01  0.000e+00  0.000e+00 2.00e+00 0.00e+00 logn  1     10    300  1  7001 1  1",
     "P          H                      PH                                                       1.000e-17  0.000e+00  0.000e+00 2.00e+00 0.00e+00 logn  4     10    800  3  7002 1  1"]},
     formats=["kida"], elements=["H", "C", "O", "P", "e"], pseudo=["CRP", "CR", "Photon"], solver=("cvode", "cpu", "dense"), interleaved_pseudo=["CR", "Photon"])
+# several user parameters declared on one @common line: their order in the generated data structure is the order of the file, under
+# every hash seed
+C17_SPECS["krome-commons"] = dict(files={"net.krome": ["@format:idx,R,R,P,Tmin,Tmax,rate", "@common:user_zeta,user_av,user_crate,user_dgr,user_tdust,user_h2frac",
+                                                       "1,C,H,CH,10,1d4,1.0d-10*user_zeta*user_av", "2,CH,H,C,NONE,NONE,2.0d-9*user_crate*user_dgr/user_tdust*user_h2frac"]},
+                                  formats=["krome"], elements=None, pseudo=None, solver=("cvode", "cpu", "dense"), skip_preludes=("custom-elements",))
+# a project that declares its own binding energy for a species another project of the same process declared differently: the later
+# declaration is the one in force (unlike the known finding, where the later project declares nothing and inherits)
+C17_SPECS["uclchem-own-binding"] = dict(files={"net.ucl": [l.replace("HCL", "HCl").replace(",CL,", ",Cl,") for l in UCL_LINES]}, formats=["uclchem"],
+                                        elements=["H", "C", "O", "Cl", "E"], pseudo=["CRP", "PHOTON"], grain_model="rr07x", solver=("cvode", "cpu", "dense"),
+                                        binding={"#CO": 1300.0, "#HCl": 5174.0}, only_preludes=("binding-energies",))
 C17_SPECS["uclchem"]["files"] = {"net.ucl": [l.replace("HCL", "HCl").replace(",CL,", ",Cl,") for l in UCL_LINES]}
 
 
@@ -405,6 +423,8 @@ def oracle_c17(tier, seed):
         ref = None
         for hs in seeds:
             for pre in (preludes if hs == seeds[0] else [[]]):
+                if base.get("only_preludes") is not None and pre and not all(x in base["only_preludes"] for x in pre):
+                    continue
                 if any(x in base.get("skip_preludes", ()) for x in pre):
                     continue      # (the leak of another network's element tables is a recorded finding on the kida / krome cases)
                 spec = dict(base, prelude=pre, repeat=2 if not pre else 1)
